@@ -22,6 +22,25 @@ Mode: lattice sweep (complete products, nothing sampled). Sub-checks ("sub" of a
                         deep or dill copy the ORIGINAL is disturbed (_disturb_model: other representation, other a and sigma,
                         measure truncated, rate moved) - the copy must not notice;
              deep       DEEP = 4 refinements of the small grids; next_level = n: n successive levels through the coupling.
+             asymmetric truncations around the cut-off 1 of the big-jump compensator (ASYM_BOUNDS: exactly one bound beyond
+                        +-1 with total width = 2 / < 2, the mirror images, width slightly above 2, one bound exactly on +-1):
+                        hand-given bounds (geometric-bounds) for every plain infinite-variation spec (quick: finite-variation
+                        ones, one per family, on the first two; thorough: every plain spec, 2 / 3 / 5 points a side) x REPS; and
+                        CGMY with ONE heavy tail (C = 0.1, G = 4, M = 30 and the mirror image, y in {1, 1.2, 1.5}; Levy and
+                        exponential) on EVERY grid spec - the model-based grid classes (uniform, geometric, probability step,
+                        credit) then have such a truncation by themselves - x {as constructed, CENTER, ONEONE, TILDE};
+             re-parametrisation histories CROSSING a regime boundary ("reparam": _crossing_donors - CGMY y across 1 both ways,
+                        across 0 both ways, across both; HEM / Merton sigma 0 <-> positive; VG theta across 0), in two modes
+                        (_reparametrised): "params" - the parameter object built with the donor values, every constructor
+                        argument re-assigned, initialisation(), then the model constructor (the calibration helpers' route) -
+                        and "live" - the MODEL object built with the donor values and the parameter object it holds re-set
+                        afterwards.  Every plain spec (quick: one Levy and one exponential per family, CGMY y in {-0.5, 0, 0.5,
+                        1, 1.2, 1.5}, and the second parameter set of HEM / Merton / VG) x REPS x small grids + a model-based
+                        one.  Oracles: every reference oracle below on the live triplet, AND process_drift() /
+                        equivalent_diffusion_coefficient equal to those of a FRESH model built directly with the final values
+                        (_fresh_twin; judged when both declare the same (a, sigma, representation, drift()): what the library
+                        fixes at construction - a and sigma of HEM / Merton / VG, omega - legitimately stays the donor's in mode
+                        "live", then counted as reparam-not-compared-with-fresh-model) [keys C04:reparam:...].
            The real MarkovChainProcess is built
            (once per sampling method of the case), initialisation(product) is called, and these are observed:
            process_drift(); the per-state rates in two independent ways - (m) the process's own truncated model mass() on
@@ -74,7 +93,9 @@ Mode: lattice sweep (complete products, nothing sampled). Sub-checks ("sub" of a
            coupling that was copied keeps its grid and drift.
  copula    (margins of mc.alphabets.MARGINS plus cgmy10 / cgmy00: CGMY y = 1 and y = 0, the ties of the Blumenthal-Getoor
            index; tie pairs on the un-refined small grids; the copula model reached through a deepcopy / dill copy whose
-           original is disturbed; one chain of dimension 4 - drift and diffusion matrix only)
+           original is disturbed; one chain of dimension 4 - drift and diffusion matrix only; pairs with a CGMY y = 1.2 margin
+           on the asymmetric hand-given truncations ASYM_GRIDS, the one-tailed margin cgmy12L on the model-based grids, and
+           margins whose model object was re-parametrised across y = 1 after construction: "cgmy05<14", "cgmy12<06")
            one case per (pair of margins in both orders of finite / infinite variation, or triple with the infinite-variation
            margin first, in the middle or last; Levy and exponential, copula, representation applied to every margin that
            admits it or MIXED = margin k declared in (CENTER, ONEONE, TILDE)[k % 3], 2-d / 3-d grid, refinements):
@@ -166,8 +187,9 @@ from mc import oracle as O
 PID = "C04"
 LEVEL = "exploration"
 RULE = (
-    "complete product (1-d model spec incl. reinit twins, argument-form twins and copied models x declared representation incl. "
-    "two-hop conversions x grid spec incl. tie grids x refinements incl. deep levels; margin pair / triple / quadruple incl. the "
+    "complete product (1-d model spec incl. reinit twins, re-parametrisations across every regime boundary (parameter object and "
+    "live model), one-tailed CGMY, argument-form twins and copied models x declared representation incl. "
+    "two-hop conversions x grid spec incl. tie grids and asymmetric truncations around the cut-off x refinements incl. deep levels; margin pair / triple / quadruple incl. the "
     "Blumenthal-Getoor ties x copula x representation incl. MIXED x 2-d / 3-d / 4-d grid x refinements), each case followed "
     "by the complete HISTORY menu on its one process object (where flagged), the caller disturbing its own model, and, where "
     "flagged, the coupling's next_level (1..n levels) on its one grid object; a case is non-trivial "
@@ -245,6 +267,10 @@ TIE_GRIDS = [
     {"kind": "fixed", "h": 0.4, "n": 7},  # the cell boundary between 0.8 and 1.2 falls on the cut-off 1 (to an ulp)
     {"kind": "geometric-bounds", "h": 0.1, "bounds": [-1.0, 1.0], "n_side": 3},  # truncation = cut-off
 ]
+# hand-given asymmetric truncations around the cut-off 1: one bound beyond +-1 and width = 2 exactly / < 2, mirror images, width
+# slightly above 2, one bound exactly on the cut-off
+ASYM_BOUNDS = [(-1.6, 0.4), (-0.3, 1.5), (-1.5, 0.3), (-0.4, 1.6), (-1.7, 0.4), (-0.4, 1.7), (-1.0, 0.5), (-0.5, 1.0)]
+ASYM_GRIDS = [{"kind": "geometric-bounds", "h": 0.1, "bounds": list(b), "n_side": 3} for b in ASYM_BOUNDS]
 SMALL_GRIDS = [{"kind": "fixed", "h": 0.1, "n": 3}, {"kind": "geometric-bounds", "h": 0.1, "bounds": [-0.7, 0.4], "n_side": 3}]
 DEEP = 4  # refinements of the deep-level cases (small grids)
 
@@ -347,6 +373,65 @@ def cases(tier):
                 if rep is None:
                     out.append({"sub": "chain1d", "model": ms, "rep": rep, "grid": dict(g, refine=0), "methods": methods[:1],
                                 "history": False, "next_level": 4 if thorough else 3})
+    # ---- asymmetric truncations around the cut-off 1 of the big-jump compensator: exactly ONE bound beyond +-1 with a total
+    # width <= 2 (= 2 exactly, < 2), the mirror images, a width slightly above 2, one bound exactly on the cut-off.
+    #  (i) hand-given bounds (geometric-bounds; quick: n_side 3, thorough also 2 and 5) for every plain spec of infinite variation
+    #      (thorough: every plain spec), every declared representation;
+    # (ii) CGMY with ONE heavy tail (G = 4, M = 30 and the mirror image), y in {1, 1.2, 1.5}: the model-based grid classes
+    #      (uniform, geometric, probability step, credit) then have such a truncation by themselves ([-1.50, 0.32] at h = 0.1 for
+    #      y = 1.2, width 2.13 at h = 0.2) - Levy and exponential, every grid spec, refinements 0 (and 1 on the small ones).
+    for rep in REPS:
+        for ms in plain:
+            if (rep == "ZERO" and not _spec_fv(ms)) or (_spec_fv(ms) and not thorough and ms not in _one_per_family(plain)):
+                continue
+            for j, b in enumerate(ASYM_BOUNDS):
+                if _spec_fv(ms) and not thorough and j >= 2:
+                    continue  # quick: finite variation (cut-off 0, for contrast) on the first two only
+                for n_side in ((2, 3, 5) if thorough else (3,)):
+                    out.append({"sub": "chain1d", "model": ms, "rep": rep,
+                                "grid": {"kind": "geometric-bounds", "h": 0.1, "bounds": list(b), "n_side": n_side, "refine": 0},
+                                "methods": methods[:1], "history": rep is None and j < 2 and n_side == 3 and not _spec_fv(ms),
+                                "next_level": rep is None and j < 2 and n_side == 3 and not _spec_fv(ms)})
+    one_tail = []
+    for y in (1.2, 1.0, 1.5):
+        for (c, g, m) in ((0.1, 4.0, 30.0), (0.1, 30.0, 4.0)):
+            if not thorough and y != 1.2 and (g < m) != (y == 1.0):
+                continue  # quick: both tails for y = 1.2, the left one for y = 1, the right one for y = 1.5
+            for exp in (False, True):
+                ms = {"family": "cgmy", "exp": exp, "params": {"c": c, "g": g, "m": m, "y": y}}
+                one_tail.append(dict(ms, r=0.02, d=0.0, spot=100.0) if exp else ms)
+    for k in (0, 1):
+        for rep in REPS[:1] + REPS[2:]:
+            for ms in one_tail:
+                for g in grids:
+                    if k and (not thorough) and (g["kind"] != "geometric" or rep is not None):
+                        continue
+                    out.append({"sub": "chain1d", "model": ms, "rep": rep, "grid": dict(g, refine=k), "methods": methods[:1],
+                                "history": rep is None and k == 0 and g["kind"] in ("uniform", "credit") and g.get("p") != 0.9,
+                                "next_level": rep is None and k == 0 and g["kind"] in ("uniform", "geometric")})
+    # ---- re-parametrisation histories that CROSS a regime boundary of the family (_crossing_donors: CGMY y across 1 both ways
+    # and across 0 both ways, HEM / Merton sigma 0 <-> positive, VG theta across 0), mode "params" (the parameter object re-set
+    # before the model is built - the route of the calibration helpers) and mode "live" (the MODEL object re-parametrised after
+    # its construction): every plain spec (quick: one Levy and one exponential per family, the CGMY exponents -0.5, 0, 0.5, 1,
+    # 1.2, 1.5 with G != M), every representation, the small grids + a model-based one.
+    rp_base = [ms for ms in plain if ms.get("triplet_sigma") is None]
+    if not thorough:
+        rp_base = _one_per_family(plain, ys=(-0.5, 0.0, 0.5, 1.0, 1.2, 1.5))
+        # + the second (sigma = 0 / theta < 0) parameter set of HEM, Merton, VG as Levy models: the other direction
+        rp_base += [ms for ms in plain if ms["family"] != "cgmy" and ms["params"] and not ms.get("exp")]
+    rp_specs = _with_reparam(rp_base)
+    rp_grids = SMALL_GRIDS + [{"kind": "uniform", "h": 0.1, "p": 0.99999}] + ([{"kind": "geometric", "h": 0.1, "n_side": 3, "p": 0.99999},
+                                                                               list(ASYM_GRIDS)[0]] if thorough else [])
+    for rep in REPS:
+        for ms in rp_specs:
+            if rep == "ZERO" and not _spec_fv(ms):
+                continue
+            for j, g in enumerate(rp_grids):
+                if not thorough and rep not in (None, "ONEONE") and j != 1:
+                    continue
+                out.append({"sub": "chain1d", "model": ms, "rep": rep, "grid": dict(g, refine=0), "methods": methods[:1],
+                            "history": rep is None and j == 0 and ms["reparam"]["mode"] == "live",
+                            "next_level": rep is None and j == 1 and ms["reparam"]["mode"] == "live"})
     # copula chains, d = 2 (both orders of a finite- and an infinite-variation margin) and d = 3 (drift only)
     pairs = [("hem", "vg"), ("cgmy05", "cgmy12"), ("cgmy12", "vg"), ("cgmy12", "hem")]
     cops = [{"kind": "clayton", "theta": 0.7, "eta": 0.3}, {"kind": "independent"}]
@@ -383,6 +468,22 @@ def cases(tier):
                         out.append({"sub": "copula", "model": {"margins": list(pair), "copula": cops[0], "exp": exp, "copied": route},
                                     "rep": rep, "grid": dict(g, refine=0), "diffusion": False, "history": rep is None,
                                     "next_level": False})
+    # asymmetric truncations around the cut-off 1 (hand-given bounds; the one-tailed margin on the model-based grids), and
+    # margins whose model object was re-parametrised across y = 1 after its construction
+    for rep in (REPS + ["MIXED"] if thorough else [None, "ONEONE", "MIXED"]):
+        for exp in (False, True):
+            for pair in [("cgmy12", "vg"), ("hem", "cgmy12")]:
+                for g in (ASYM_GRIDS if thorough else ASYM_GRIDS[:2]):
+                    out.append({"sub": "copula", "model": {"margins": list(pair), "copula": cops[0], "exp": exp}, "rep": rep,
+                                "grid": dict(g, refine=0), "diffusion": False, "history": False, "next_level": rep is None})
+            for g in (COPULA_GRIDS[3], COPULA_GRIDS[5], {"kind": "uniform", "h": 0.1, "p": 0.99999}):
+                out.append({"sub": "copula", "model": {"margins": ["cgmy12L", "cgmy12L"], "copula": cops[0], "exp": exp}, "rep": rep,
+                            "grid": dict(g, refine=0), "diffusion": False, "history": False, "next_level": False})
+            for pair in [("cgmy05<14", "cgmy12"), ("hem", "cgmy12<06"), ("cgmy05<14", "vg")]:
+                for g in COPULA_GRIDS[:3:2]:
+                    out.append({"sub": "copula", "model": {"margins": list(pair), "copula": cops[0], "exp": exp}, "rep": rep,
+                                "grid": dict(g, refine=0), "diffusion": False, "history": rep is None,
+                                "next_level": rep is None and g["kind"] == "fixed"})
     # dimension 4 (the generic n-d mass; finite- and infinite-variation margins), smallest grid
     for rep in ([None, "CENTER", "MIXED"] if thorough else [None, "MIXED"]):
         for exp in ((False, True) if thorough else (False,)):
@@ -430,6 +531,8 @@ def _mclass(spec):
         s += f":sigma={spec['triplet_sigma']:g}"
     if spec.get("via") == "reinit":
         s += ":reinit"
+    if spec.get("reparam"):
+        s += f":reparam={spec['reparam']['mode']}:{spec['reparam']['cross']}"
     if spec.get("form"):
         s += f":form={spec['form']}"
     if spec.get("copied"):
@@ -487,7 +590,7 @@ def _make_model(spec):
       process; the variance clauses read sigma from the triplet, as the chain does;
     * "copied": the model handed on is a copy (copy.deepcopy / dill round trip / copy.copy) of the one constructed; after a deep
       or dill copy the ORIGINAL is disturbed (_disturb_model): the copy must be independent of it."""
-    extra = ("triplet_sigma", "form", "copied")
+    extra = ("triplet_sigma", "form", "copied", "reparam")
     plain = {k: v for k, v in spec.items() if k not in extra}
     form = spec.get("form")
     if form:
@@ -495,7 +598,7 @@ def _make_model(spec):
         for k in ("r", "d", "spot"):
             if k in plain:
                 plain[k] = _as_form(plain[k], form)
-    model = A.make_model(plain)
+    model = _reparametrised(plain, spec["reparam"]) if spec.get("reparam") else A.make_model(plain)
     if spec.get("triplet_sigma") is not None:
         model.levy_triplet.sigma = float(spec["triplet_sigma"])
     route = spec.get("copied")
@@ -507,8 +610,76 @@ def _make_model(spec):
     return model
 
 
+def _crossing_donors(spec):
+    """[(name of the regime boundary crossed, donor parameter set)]: parameter sets on the OTHER side of a regime boundary of
+    the family from the spec's own - CGMY: the exponent y across 1 (finite / infinite variation) and across 0 (finite / infinite
+    activity of the closed forms' branches), HEM / Merton: the Brownian coefficient 0 <-> positive, VG: the sign of theta (which
+    tail is the heavy one).  Every other entry of the donor differs from the target's as well."""
+    fam, p = spec["family"], spec["params"]
+    d = dict(A.DONOR_PARAMS[fam])
+    if fam == "cgmy":
+        y = p["y"]
+        if y >= 1.0:
+            return [("y-up-across-1", dict(d, y=0.6))]
+        if y >= 0.0:
+            return [("y-down-across-1", dict(d, y=1.4)), ("y-up-across-0", dict(d, y=-0.5))]
+        return [("y-down-across-0", dict(d, y=0.5)), ("y-down-across-1-and-0", dict(d, y=1.4))]
+    if fam in ("hem", "merton"):
+        sigma = p.get("sigma", 0.05)
+        return [("sigma-positive-to-0", d)] if sigma == 0.0 else [("sigma-0-to-positive", dict(d, sigma=0.0))]
+    if fam == "vg":
+        theta = p.get("theta", 0.1)
+        return [("theta-negative-to-positive", d)] if theta > 0 else [("theta-positive-to-negative", dict(d, theta=0.05))]
+    raise ValueError(fam)
+
+
+def _with_reparam(specs, modes=("params", "live"), first_only=False):
+    """every spec re-parametrised across each regime boundary of its family (_crossing_donors), in each mode (_reparametrised)"""
+    out = []
+    for ms in specs:
+        donors = _crossing_donors(ms)
+        for cross, donor in (donors[:1] if first_only else donors):
+            for mode in modes:
+                out.append(dict(ms, reparam={"mode": mode, "cross": cross, "donor": donor}))
+    return out
+
+
+def _reparametrised(plain, rp):
+    """the model of the spec `plain` reached through a RE-PARAMETRISATION that crosses a regime boundary (rp["donor"]: the
+    parameter values before; setattr of every constructor argument + initialisation(), the mutation pattern of
+    rpylib/model/utils.py):
+      mode "params"  the parameter object is built with the donor values, re-set, then handed to the model constructor;
+      mode "live"    the MODEL is built with the donor values and the parameter object it holds (shared with its measure and
+                     cumulants) is re-set afterwards.  What the library fixes at construction stays what it was (triplet a and
+                     sigma of HEM / Merton / VG, omega of the exponential models): the object is then the Levy model
+                     (a_donor, sigma_donor, nu_final), which the statement covers like any other triplet - the reference
+                     oracles read the live triplet; the comparison with a freshly built model is made when the two triplets
+                     and drifts agree (CGMY: a = 0, sigma = 0 whatever the parameters)."""
+    import copy
+    import inspect
+
+    target = A.make_model(plain)
+    donor = A.make_model(dict(plain, params=rp["donor"]))
+    exp = bool(plain.get("exp"))
+    holder_t = target.levy_model if exp else target
+    holder_d = donor.levy_model if exp else donor
+    params = holder_d.parameters if rp["mode"] == "live" else copy.deepcopy(holder_d.parameters)
+    for n in inspect.signature(type(params).__init__).parameters:
+        if n != "self":
+            setattr(params, n, getattr(holder_t.parameters, n))
+    params.initialisation()
+    if rp["mode"] == "live":
+        return donor
+    if exp:
+        return type(target)(spot=plain.get("spot", 100.0), r=plain["r"], d=plain["d"], parameters=params)
+    return type(target)(parameters=params)
+
+
 def _label(spec):
     s = A.model_label(spec)
+    rp = spec.get("reparam")
+    s += (f"[{'model built' if rp['mode'] == 'live' else 'parameter object built'} with {rp['donor']}, then re-set "
+          f"({rp['cross']}) + initialisation()]") if rp else ""
     s += f"[triplet sigma={spec['triplet_sigma']:g}]" if spec.get("triplet_sigma") is not None else ""
     s += f"[arguments as {spec['form']}]" if spec.get("form") else ""
     s += f"[{spec['copied']} of the model, original disturbed afterwards]" if spec.get("copied") else ""
@@ -518,7 +689,14 @@ def _label(spec):
 # the margins of mc.alphabets plus the CGMY ties: Blumenthal-Getoor index exactly 1 and exactly 0
 MARGINS = dict(A.MARGINS,
                cgmy10={"family": "cgmy", "exp": False, "params": {"c": 1.0, "g": 15.0, "m": 20.0, "y": 1.0}},
-               cgmy00={"family": "cgmy", "exp": False, "params": {"c": 1.0, "g": 15.0, "m": 20.0, "y": 0.0}})
+               cgmy00={"family": "cgmy", "exp": False, "params": {"c": 1.0, "g": 15.0, "m": 20.0, "y": 0.0}},
+               # one heavy tail: the truncation of the model-based grids is asymmetric, narrower than 2 and reaches beyond -1
+               cgmy12L={"family": "cgmy", "exp": False, "params": {"c": 0.1, "g": 4.0, "m": 30.0, "y": 1.2}})
+# margins whose MODEL object was re-parametrised across y = 1 after construction (mode "live" of _reparametrised)
+MARGINS["cgmy05<14"] = dict(MARGINS["cgmy05"], reparam={"mode": "live", "cross": "y-down-across-1",
+                                                         "donor": {"c": 0.7, "g": 9.0, "m": 11.0, "y": 1.4}})
+MARGINS["cgmy12<06"] = dict(MARGINS["cgmy12"], reparam={"mode": "live", "cross": "y-up-across-1",
+                                                         "donor": {"c": 0.7, "g": 9.0, "m": 11.0, "y": 0.6}})
 
 
 def _make_copula_model(spec):
@@ -531,7 +709,7 @@ def _make_copula_model(spec):
         ms = dict(MARGINS[name])
         if spec.get("exp"):
             ms = dict(ms, exp=True, r=0.02, d=0.0, spot=100.0)
-        models.append(A.make_model(ms))
+        models.append(_make_model(ms) if ms.get("reparam") else A.make_model(ms))
     model = create_levy_copula_model(models=models, copula=A.make_copula(spec["copula"]))
     if spec.get("copied"):
         original = model
@@ -548,7 +726,9 @@ def _cop_label(c):
 
 
 def _gclass(g):
-    return g["kind"] + (":refined" if g.get("refine") else "")
+    b = g.get("bounds")
+    asym = bool(b) and (b[0] < -1.0) != (b[1] > 1.0)  # hand-given bounds with exactly one beyond the cut-off +-1
+    return g["kind"] + (":one-bound-beyond-the-cut-off" if asym else "") + (":refined" if g.get("refine") else "")
 
 
 # ----------------------------------------------------------------------------------------------------------------------
@@ -907,6 +1087,10 @@ def _chain1d(sh, case):
             sh.violation(f"C04:mean:MarkovChainProcess.process_drift:depends-on-the-sampling-method:{tail}",
                          f"{label}: {pd!r} with {case['methods'][0]}, {_real(p.process_drift())!r} with {meth}", None)
 
+    if spec.get("reparam"):
+        _fresh_twin(sh, label, tail, vtail_of(mc, fv, gc), spec, hops, gspec, case["methods"][0], product,
+                    (a, sigma, rep, drift), pd, sig_eq, axis)
+
     # ---- reference cells and the two notions of rate
     cells, central = O.ref_cells(axis, o, middle=grid.middle)
     cells = [None if c is None else (float(c[0]), float(c[1])) for c in cells]
@@ -1059,6 +1243,53 @@ def _chain1d(sh, case):
                    "points": len(axis), "process_drift": pd, "sum_x_rate": sum(axis[k] * r for k, r in rates_m.items()),
                    "expected_mean": want, "a": a, "model_drift": drift, "int_T_x(1-c)nu": jump_mean,
                    "sigma_eq^2-sigma^2": added, "int_central_x^2_nu": q_c})
+
+
+def _fresh_twin(sh, label, tail, vtail, spec, hops, gspec, method, product, declared, pd, sig_eq, axis):
+    """a re-parametrised model (spec["reparam"]) against a FRESH model built directly with the final parameter values, declared
+    through the same conversions, on a grid built from the same grid spec: same process_drift() and
+    equivalent_diffusion_coefficient (the same computation on equal values: rtol 1e-12).  Judged only when the two models
+    declare the same (a, sigma, representation) and the same drift() - what the library fixes at construction (a and sigma of
+    HEM / Merton / VG, omega) legitimately stays the donor's when the model object is re-parametrised afterwards - and the two
+    grids have the same axis; otherwise counted."""
+    from rpylib.distribution.sampling import SamplingMethod
+    from rpylib.model.levymodel.levymodel import LevyRepresentation
+    from rpylib.process.markovchain.markovchain import MarkovChainProcess
+
+    mode = spec["reparam"]["mode"]
+    sh.cls(f"reparam:{mode}:{spec['reparam']['cross']}")
+    try:
+        with warnings.catch_warnings():
+            warnings.simplefilter("ignore")
+            fresh = _make_model({k: v for k, v in spec.items() if k != "reparam"})
+            for hop in hops:
+                if hop:
+                    fresh.levy_triplet.set_representation(LevyRepresentation[hop])
+            a2, sigma2, _, rep2, _ = _triplet(fresh)
+            if (a2, sigma2, rep2, _real(fresh.drift())) != tuple(declared):
+                sh.count(f"reparam-not-compared-with-fresh-model:{mode}:declared-triplet-or-drift-is-the-donors")
+                return
+            grid2 = A.make_grid(gspec, fresh)
+            if [float(x) for x in grid2.axes[0]] != list(axis):
+                sh.count(f"reparam-not-compared-with-fresh-model:{mode}:other-grid")
+                return
+            p2 = MarkovChainProcess(model=fresh, method=SamplingMethod[method], grid=grid2)
+            p2.initialisation(product)
+            pd2, sig2 = _real(p2.process_drift()), _real(p2.equivalent_diffusion_coefficient)
+    except Exception as e:  # noqa
+        sh.count(f"reparam-not-compared-with-fresh-model:{mode}:fresh-model-raises-{type(e).__name__}")
+        return
+    sh.count("evaluations", 2)
+    sh.cls(f"reparam:{mode}:compared-with-fresh-model")
+    scale = max(abs(pd2), abs(declared[0]), abs(declared[3]), 1e-300) if math.isfinite(pd2) else 1.0
+    if not (core.close(pd, pd2, rtol=1e-12, atol=1e-15, scale=scale) or (math.isnan(pd) and math.isnan(pd2))):
+        sh.violation(f"C04:reparam:MarkovChainProcess.process_drift:differs-from-that-of-a-fresh-model:{tail}",
+                     f"{label}: process_drift() = {pd!r}; a model built directly with the final parameter values gives {pd2!r} "
+                     f"(same declared triplet {declared}, same grid)", {"reparametrised": pd, "fresh": pd2})
+    if not (core.close(sig_eq, sig2, rtol=1e-12, atol=1e-300) or (math.isnan(sig_eq) and math.isnan(sig2))):
+        sh.violation(f"C04:reparam:equivalent_diffusion_coefficient:differs-from-that-of-a-fresh-model:{vtail}",
+                     f"{label}: equivalent_diffusion_coefficient = {sig_eq!r}; a model built directly with the final parameter "
+                     f"values gives {sig2!r}", {"reparametrised": sig_eq, "fresh": sig2})
 
 
 def vtail_of(mc, fv, gc):
